@@ -255,6 +255,9 @@ def c14(tier):
     for form in range(4):
         for long in (0, 1):
             runs.append(dict(harness="verifHarness_C14_uni", args=[form, long]))
+    for variant in range(3):
+        for after_dot in (0, 1):
+            runs.append(dict(harness="verifHarness_C14_kw", args=[variant, after_dot]))
     return runs + corpus(14)
 
 
